@@ -44,6 +44,12 @@ STDLIB_AXIOMS_OK = (
 )
 
 
+def strip_coq(src):
+    """remove comments and string literals before scanning for forbidden vernacular"""
+    body = re.sub(r'"(?:[^"]|"")*"', '""', src)
+    return re.sub(r"\(\*.*?\*\)", "", body, flags=re.S)
+
+
 def clean_out(s):
     """drop the conda warning line every shell/python start prints here"""
     return "\n".join(l for l in s.splitlines() if "WARNING: conda" not in l and "conda.cli" not in l)
@@ -175,7 +181,7 @@ class Check:
 
     def gate_text(self, src, label):
         # strip comments (non-nested is enough for our files) before looking for forbidden words
-        body = re.sub(r"\(\*.*?\*\)", "", src, flags=re.S)
+        body = strip_coq(src)
         m = FORBIDDEN.search(body)
         if m:
             self.oblige("gate:" + label, False, "forbidden construct: " + m.group(0), kind="gate")
@@ -188,13 +194,16 @@ class Check:
         for root, _, files in os.walk(COQ):
             for fn in files:
                 if fn.endswith(".v"):
-                    body = re.sub(r"\(\*.*?\*\)", "", open(os.path.join(root, fn)).read(), flags=re.S)
+                    body = strip_coq(open(os.path.join(root, fn)).read())
                     m = FORBIDDEN.search(body)
                     if m:
                         bad.append(fn + ":" + m.group(0))
         self.oblige("gate:static-development", not bad, ",".join(bad), kind="gate")
-        # the static development must be built (setup_cmd); rebuild incrementally if stale
-        p = subprocess.run(["timeout", "1500", "make", "-C", COQ, "-j16", "-s"], capture_output=True, text=True)
+        if os.environ.get("VERIF_SKIP_STATIC_BUILD"):
+            return not bad  # development only: the caller compiled its own files with bin/coqone
+        # the static development must be built (setup_cmd); rebuild incrementally if stale (serialised by a lock)
+        p = subprocess.run(["flock", os.path.join(VERIF, "build", ".coq.lock"), os.path.join(VERIF, "bin", "setup")],
+                           capture_output=True, text=True)
         self.oblige("build:static-development", p.returncode == 0, clean_out(p.stdout + p.stderr)[-1500:], kind="gate")
         return not bad and p.returncode == 0
 
